@@ -441,6 +441,11 @@ def _process_worker(
             workers timeout.
         current_depth: Nested parallelism level, to avoid infinite spawning.
     """
+    # set the global _CURRENT_DEPTH mechanism to limit recursive call. This
+    # has to be done before the initializer runs: it can create executors too.
+    global _CURRENT_DEPTH
+    _CURRENT_DEPTH = current_depth
+
     if initializer is not None:
         try:
             initializer(*initargs)
@@ -450,9 +455,6 @@ def _process_worker(
             # mark the pool broken
             return
 
-    # set the global _CURRENT_DEPTH mechanism to limit recursive call
-    global _CURRENT_DEPTH
-    _CURRENT_DEPTH = current_depth
     _process_reference_size = None
     _last_memory_leak_check = None
     pid = os.getpid()
